@@ -4,7 +4,9 @@
 //! Pulled in by `#[cfg(kani)] #[path = "/verif/kani/engine/code_block.rs"] mod verif_kani;`
 //! in /repo/core/engine/src/vm/code_block.rs.
 
-// ASSUME-FILE[assume]: none.
+// ASSUME-FILE[assume]: bounds the number of handlers (BOUND).
+// ASSUME-FILE[unwind]: loops over at most 3 handlers.
+// ASSUME-FILE[drop]: the `CodeBlock` is forgotten (its drop glue reaches `Gc` constants).
 
 use super::*;
 
@@ -18,6 +20,47 @@ fn c03_handler_contains() {
     // half-open range [start, end): the handler's own landing pc (`end`) is not protected by it
     assert!(r == (h.start.as_u32() <= pc && pc < h.end.as_u32()));
     assert!(h.handler().as_u32() == h.end.as_u32());
+}
+
+
+/// Handler lookup: the LAST handler of the table whose range contains pc wins (handlers of nested `try`
+/// blocks are pushed outermost first, so the innermost protecting handler must be chosen); None iff no
+/// range contains pc.
+// BOUND: exception tables of at most 3 handlers (ranges and pc symbolic)
+// FN: CodeBlock::find_handler, Handler::contains
+#[kani::proof]
+#[kani::unwind(6)]
+fn c03_find_handler_picks_innermost() {
+    let mut cb = CodeBlock::new(boa_string::StaticJsStrings::EMPTY_STRING, 0, false);
+    let n: usize = kani::any();
+    kani::assume(n <= 3);
+    let hs: [(u32, u32); 3] = kani::any();
+    let mut i = 0;
+    while i < n {
+        cb.handlers.push(Handler { start: Address::new(hs[i].0), end: Address::new(hs[i].1), environment_count: i as u32 });
+        i += 1;
+    }
+    let pc: u32 = kani::any();
+    let inside = |k: usize| k < n && hs[k].0 <= pc && pc < hs[k].1;
+    kani::cover!(inside(0) && inside(2) && !inside(1));
+    kani::cover!(n == 3 && !inside(0) && !inside(1) && !inside(2));
+    let want = if inside(2) {
+        Some(2)
+    } else if inside(1) {
+        Some(1)
+    } else if inside(0) {
+        Some(0)
+    } else {
+        None
+    };
+    match cb.find_handler(pc) {
+        Some((idx, h)) => {
+            assert!(want == Some(idx));
+            assert!(h.environment_count == idx as u32 && h.start.as_u32() == hs[idx].0);
+        }
+        None => assert!(want.is_none()),
+    }
+    std::mem::forget(cb);
 }
 
 #[cfg(verif_replay)]
